@@ -112,6 +112,7 @@ void childMain(const Json& plan, int faultOp, uint64_t faultK, int resFd) {
     std::set_terminate(childTerminate);
     Json out = Json::object();
     {
+        SimMemoryManager::recordSites() = faultOp < 0;     // the dry run keeps allocation sites so that a fault-free imbalance can name who allocated the block
         Scenario sc(plan); g_mm = &sc.mm;
         const Json& ops = plan.at("ops");
         Json jops = Json::array();
@@ -142,6 +143,7 @@ void childMain(const Json& plan, int faultOp, uint64_t faultK, int resFd) {
         out["refused"] = (long long)sc.mm.refused;
         out["liveAfterDelete"] = (long long)sc.mm.liveBlocks;
         out["liveBytesAfterDelete"] = (long long)sc.mm.liveBytes;
+        if (faultOp < 0 && sc.mm.liveBlocks) { auto sites = sc.mm.liveSites(1); if (!sites.empty()) { out["leakSite"] = responsibleFrames(sites[0].data(), (int)sites[0].size(), 2); out["leakStack"] = xalanFrames(sites[0].data(), (int)sites[0].size(), 8); } }
         out["foreign"] = (long long)sc.mm.foreignFrees; out["double"] = (long long)sc.mm.doubleFrees; out["badfree"] = sc.mm.firstBadFree;
         if (sc.mm.refused) { out["refusedSite"] = responsibleFrames(sc.mm.lastRefusedBt + 1, sc.mm.lastRefusedBtN - 1, 2); out["refusedStack"] = xalanFrames(sc.mm.lastRefusedBt + 1, sc.mm.lastRefusedBtN - 1, 8); }
         // ---- recovery: a new transformer on the same manager must work and be balanced
@@ -225,7 +227,7 @@ struct C19 : public Driver {
         GenDoc d0 = genDoc(g, dc); GenDoc d1 = genDoc(g, dc);
         // features: avoid the ones that hit known non-C19 findings (bigfmt: stack overflow in number formatting)
         auto allowed = featuresExcept({ "bigfmt", "ns-axis", "doctype-node" });
-        SSCfg sc; sc.on = pickFeatures(g, allowed, 2, 7); sc.useImport = g.chance(1, 4); sc.useInclude = g.chance(1, 4); sc.docFn = g.chance(1, 4); sc.stripSpace = g.chance(1, 4);
+        SSCfg sc; sc.on = pickFeatures(g, allowed, 2, 7); sc.dupExtPrefix = g.chance(1, 4); if (g.chance(1, 4)) sc.on.insert("manyrtf"); if (g.chance(1, 4)) sc.on.insert("deeprec"); sc.useImport = g.chance(1, 4); sc.useInclude = g.chance(1, 4); sc.docFn = g.chance(1, 4); sc.stripSpace = g.chance(1, 4);
         sc.encoding = g.chance(1, 4) ? "ISO-8859-1" : (g.chance(1, 5) ? "UTF-16" : "UTF-8"); sc.order = g.chance(1, 3) ? "rk" : "doc";
         GenSS s0 = genStylesheet(g, sc, d0);
         SSCfg sb = sc; static const std::vector<std::string> aborts = { "message", "key", "extfn", "encoding" };
@@ -290,7 +292,7 @@ struct C19 : public Driver {
         if (r.num("double2") > 0) { outcome["double-free"]++; viol("double-free", r.str("refusedSite"), r.str("badfree") + " after refusing the allocation at " + r.str("refusedStack")); return; }
         if (r.has("ubsan")) { outcome["ubsan"]++; viol("sanitizer:ubsan", r.at("ubsan").a[0].s, "UBSan report in child"); return; }
         if (fi < 0) {   // dry run: balance
-            if (r.num("liveAfterDelete") != 0) { outcome["unbalanced"]++; viol("unbalanced", "fault-free:" + std::to_string(r.num("liveAfterDelete")), std::to_string(r.num("liveAfterDelete")) + " blocks (" + std::to_string(r.num("liveBytesAfterDelete")) + " bytes) still outstanding after the transformer's destructor in a fault-free run"); }
+            if (r.num("liveAfterDelete") != 0) { outcome["unbalanced"]++; viol("unbalanced", "fault-free:" + r.str("leakSite", "unknown-site"), std::to_string(r.num("liveAfterDelete")) + " blocks (" + std::to_string(r.num("liveBytesAfterDelete")) + " bytes) still outstanding after the transformer's destructor in a fault-free run; first one allocated at " + r.str("leakStack")); }
             if (r.num("recLeak") != 0) { outcome["unbalanced"]++; viol("unbalanced", "fault-free-recovery", "recovery transformer left blocks outstanding"); }
             for (size_t i = 0; i < r.at("ops").a.size(); ++i) if (r.at("ops").a[i].boolean("errEmpty")) viol("empty-error", "op:" + ops.a[i].str("op"), "non-zero status with empty getLastError()");
             return;
